@@ -999,6 +999,303 @@ class Planner:
         res["dicts"] = self.dicts
         return res
 
+    # ---------------------------------------------------------------- C13: twins and near-duplicates
+    SWAPS = {
+        "ufl.sin": "ufl.cos",
+        "ufl.cos": "ufl.sin",
+        "ufl.exp": "ufl.ln",
+        "operator.add": "operator.sub",
+        "operator.sub": "operator.add",
+        "ufl.lt": "ufl.le",
+        "ufl.gt": "ufl.ge",
+        "ufl.eq": "ufl.ne",
+        "ufl.inner": "ufl.dot",
+        "ufl.max_value": "ufl.min_value",
+        "ufl.min_value": "ufl.max_value",
+        "ufl.grad": "ufl.nabla_grad",
+        "ufl.sym": "ufl.skew",
+        "ufl.tr": "ufl.det",
+        "ufl.avg": "ufl.jump",
+        "ufl.real": "ufl.imag",
+        "ufl.elem_mult": "ufl.elem_div",
+    }
+    STOP_KINDS = ("elem", "mesh", "space", "coef", "const", "arg", "geo", "index")
+
+    @staticmethod
+    def refs_of(x, acc=None):
+        acc = [] if acc is None else acc
+        if isinstance(x, list):
+            if len(x) == 2 and x[0] == "$" and isinstance(x[1], int):
+                acc.append(x[1])
+            else:
+                for y in x:
+                    Planner.refs_of(y, acc)
+        elif isinstance(x, dict):
+            for y in x.values():
+                Planner.refs_of(y, acc)
+        return acc
+
+    @staticmethod
+    def sub_refs(x, mapping):
+        if isinstance(x, list):
+            if len(x) == 2 and x[0] == "$" and isinstance(x[1], int):
+                return ["$", mapping.get(x[1], x[1])]
+            return [Planner.sub_refs(y, mapping) for y in x]
+        if isinstance(x, dict):
+            return {k: Planner.sub_refs(v, mapping) for k, v in x.items()}
+        return x
+
+    def producers(self):
+        prod = {}
+        for i, op in enumerate(self.ops):
+            if op[0] in ("call", "meth", "lit", "attr") and isinstance(op[1], int):
+                prod[op[1]] = i
+        return prod
+
+    def closure(self, target, prod):
+        """Indices of the ops that build ``target`` from terminals / environment."""
+        need, seen, stack = set(), set(), [target]
+        while stack:
+            s_ = stack.pop()
+            if s_ in seen or s_ not in prod:
+                continue
+            seen.add(s_)
+            kind = self.info.get(s_, {}).get("k")
+            if kind in self.STOP_KINDS and s_ != target:
+                continue
+            i = prod[s_]
+            need.add(i)
+            stack.extend(self.refs_of(self.ops[i][2:]))
+        return sorted(need)
+
+    def mutate_op(self, op, neardup):
+        """One field of one op changed (or None if nothing applicable)."""
+        r = self.rng
+        op = [x for x in op]
+        cands = []
+        if op[0] == "lit" and isinstance(op[2], dict):
+            d = op[2]
+            ks = list(d)
+            if len(ks) >= 2:
+                cands.append(("reorder", ["lit", op[1], {k: d[k] for k in reversed(ks)}]))
+            if ks:
+                k0 = ks[0]
+                v = d[k0]
+                d2 = dict(d)
+                d2[k0] = (v + 1) if isinstance(v, (int, float)) and not isinstance(v, bool) else "other"
+                cands.append(("value", ["lit", op[1], d2]))
+            d3 = dict(d)
+            d3["extra"] = 1
+            cands.append(("addkey", ["lit", op[1], d3]))
+        if op[0] == "call":
+            f, args = op[2], op[3]
+            kw = op[4] if len(op) > 4 else {}
+            if f in self.SWAPS:
+                cands.append(("swapfn", ["call", op[1], self.SWAPS[f], args] + ([kw] if kw else [])))
+            if f in ("operator.add", "operator.mul") and len(args) == 2:
+                cands.append(("commute", ["call", op[1], f, [args[1], args[0]]]))
+            for i, a in enumerate(args):
+                if isinstance(a, bool):
+                    continue
+                if isinstance(a, int):
+                    for d in (1, -1):
+                        cands.append(("int", ["call", op[1], f, args[:i] + [a + d] + args[i + 1 :]] + ([kw] if kw else [])))
+                    cands.append(("int2float", ["call", op[1], f, args[:i] + [float(a)] + args[i + 1 :]] + ([kw] if kw else [])))
+                elif isinstance(a, float):
+                    cands.append(("float", ["call", op[1], f, args[:i] + [a * 2 + 1] + args[i + 1 :]] + ([kw] if kw else [])))
+                    if a == int(a):
+                        cands.append(("float2int", ["call", op[1], f, args[:i] + [int(a)] + args[i + 1 :]] + ([kw] if kw else [])))
+                elif isinstance(a, list) and a and a[0] == "t" and any(isinstance(x, int) and not isinstance(x, bool) for x in a[1:]):
+                    j = r.choice([j for j in range(1, len(a)) if isinstance(a[j], int) and not isinstance(a[j], bool)])
+                    a2 = a[:j] + [a[j] + r.choice([1, -1])] + a[j + 1 :]
+                    cands.append(("tuple", ["call", op[1], f, args[:i] + [a2] + args[i + 1 :]] + ([kw] if kw else [])))
+                elif isinstance(a, list) and len(a) == 2 and a[0] == "$" and a[1] in neardup:
+                    for nd in neardup[a[1]]:
+                        cands.append(("leaf", ["call", op[1], f, args[:i] + [["$", nd]] + args[i + 1 :]] + ([kw] if kw else [])))
+            if f == "ufl.Measure":
+                k2 = {"dx": "ds", "ds": "dx", "dS": "dx"}.get(args[0], "dx")
+                cands.append(("mkind", ["call", op[1], f, [k2], kw]))
+                sid = kw.get("subdomain_id", "everywhere")
+                for s2 in (1, 2, ["t", 1, 2], "everywhere", "otherwise", ["t", 2, 1]):
+                    if s2 != sid:
+                        cands.append(("sid", ["call", op[1], f, args, dict(kw, subdomain_id=s2)]))
+                if "metadata" in kw:
+                    k3 = dict(kw)
+                    del k3["metadata"]
+                    cands.append(("nomd", ["call", op[1], f, args, k3]))
+                else:
+                    cands.append(("md", ["call", op[1], f, args, dict(kw, metadata={"quadrature_degree": 2})]))
+        if op[0] == "meth" and op[3] == "__call__" and op[4] and op[4][0] in ("+", "-"):
+            cands.append(("side", ["meth", op[1], op[2], "__call__", ["-" if op[4][0] == "+" else "+"]]))
+        if not cands:
+            return None, None
+        return r.choice(cands)
+
+    def twin(self, target, prod, neardup, mutate):
+        """Re-build ``target`` from the same terminals with fresh operator objects;
+        optionally with exactly one op changed.  Returns (new slot, tag) or (None, None)."""
+        r = self.rng
+        idx = self.closure(target, prod)
+        if not idx:
+            return None, None
+        mpos = r.choice(idx) if mutate else None
+        mapping = {}
+        tag = "equal"
+        for i in idx:
+            op = self.ops[i]
+            new = self.new()
+            op2 = [op[0], new] + self.sub_refs(op[2:], mapping)
+            if i == mpos:
+                what, mop = self.mutate_op(op2, neardup)
+                if mop is None:
+                    # nothing to change in this op: try another position later in the closure
+                    rest = [j for j in idx if j > i]
+                    mpos = r.choice(rest) if rest else None
+                else:
+                    op2 = mop
+                    tag = "near:" + what
+            kind = self.info.get(op[1], {}).get("k")
+            if not self.emit(op2, kind=kind):
+                return None, None
+            mapping[op[1]] = new
+        if mutate and not tag.startswith("near"):
+            return None, None
+        return mapping.get(target), tag
+
+    def terminal_neardups(self):
+        """Counted terminals / meshes / spaces re-created with the *same* explicit count or
+        id and one field changed (or none): the pairs for which an __eq__ that compares a
+        subset of its data shows.  (The realistic route to equal counts is crash/restart +
+        unpickling; explicit count= is the same public constructor argument.)"""
+        r = self.rng
+        nd = {}
+        pairs = []
+        for M in self.meshes:
+            g = M["gdim"]
+            others = [m for m in self.meshes if m is not M]
+            # an equal-but-distinct space object and a different space on the same mesh
+            for c in M["coefs"]:
+                cnt = self.obj(c).count()
+                sp = self._space_of(c)
+                choices = [s for s in M["spaces"] if s != sp]
+                for m2 in others:
+                    choices += m2["spaces"][:1]
+                opts = [("same", sp)] + [("space", s) for s in r.sample(choices, min(2, len(choices)))]
+                for what, s2 in opts:
+                    t = self.call("ufl.Coefficient", self.ref(s2), kind="coef", count=cnt)
+                    if t is not None:
+                        nd.setdefault(c, []).append(t)
+                        pairs.append([c, t, "term:" + what])
+            for c in M["consts"]:
+                o = self.obj(c)
+                cnt = o.count()
+                sh = tuple(o.ufl_shape)
+                shapes = [s for s in [(), (g,), (g, g), (g + 1,)] if s != sh]
+                opts = [("same", M["slot"], sh), ("shape", M["slot"], r.choice(shapes))]
+                if others:
+                    opts.append(("domain", r.choice(others)["slot"], sh))
+                for what, ms, sh2 in opts:
+                    t = self.call("ufl.Constant", self.ref(ms), self.lit_tuple(sh2), kind="const", count=cnt)
+                    if t is not None:
+                        if sh2 == sh:
+                            nd.setdefault(c, []).append(t)
+                        pairs.append([c, t, "term:" + what])
+            for which in ("v", "u"):
+                a = M.get(which)
+                if a is None:
+                    continue
+                o = self.obj(a)
+                num, part = o.number(), o.part()
+                V = M["V"]
+                alt = [s for s in M["spaces"] if s != V]
+                opts = [("same", V, num, part), ("part", V, num, 0 if part is None else None), ("part1", V, num, 1), ("number", V, num + 1, part)]
+                if alt:
+                    opts.append(("space", r.choice(alt), num, part))
+                for what, sp, n2, p2 in opts:
+                    t = self.call("ufl.Argument", self.ref(sp), n2, p2 if p2 is not None else ["none"], kind="arg")
+                    if t is not None:
+                        if what in ("same", "part", "part1", "number") or tuple(self.obj(t).ufl_shape) == tuple(o.ufl_shape):
+                            nd.setdefault(a, []).append(t)
+                        pairs.append([a, t, "term:" + what])
+            # a mesh with the same id and another coordinate element; geometric quantities on it
+            mid = self.obj(M["slot"]).ufl_id()
+            ce2 = self.elem("Lagrange", M["cell"], 3, (g,))
+            m2 = self.call("ufl.Mesh", self.ref(ce2), kind="mesh", ufl_id=mid)
+            ce1 = None
+            for op in self.ops:
+                if op[0] == "call" and op[1] == M["slot"]:
+                    ce1 = op[3][0]
+            m3 = self.call("ufl.Mesh", ce1, kind="mesh", ufl_id=mid) if ce1 is not None else None
+            for what, mm in (("mesh-elem", m2), ("mesh-same", m3)):
+                if mm is None:
+                    continue
+                for gq in M["geos"][:3]:
+                    cname = type(self.obj(gq)).__name__
+                    t = self.call("ufl." + cname, self.ref(mm), kind="geo")
+                    if t is not None:
+                        nd.setdefault(gq, []).append(t)
+                        pairs.append([gq, t, "term:" + what])
+        # literals
+        lits = []
+        for v in [0, 1, 1.0, ["c", 1.0, 0.0], 2, 2.0, -1, 0.0, ["c", 0.0, 0.0], 0.5, ["c", 0.5, 1.0]]:
+            t = self.call("ufl.as_ufl", v)
+            if t is not None:
+                lits.append(t)
+        for sh in [(), (2,), (3,), (2, 2), (2, 3)]:
+            t = self.call("ufl.classes.Zero", self.lit_tuple(sh))
+            if t is not None:
+                lits.append(t)
+        for d in (2, 3):
+            for f in ("ufl.Identity", "ufl.PermutationSymbol"):
+                t = self.call(f, d)
+                if t is not None:
+                    lits.append(t)
+        for i in range(len(lits)):
+            for j in range(i + 1, len(lits)):
+                if r.random() < 0.3:
+                    pairs.append([lits[i], lits[j], "lit"])
+        return nd, pairs, lits
+
+    def c13_program(self):
+        r = self.rng
+        self.cfg.setdefault("n_steps", r.randint(0, 5))
+        self.cfg.setdefault("abort_p", 0.0)
+        res = self.pool_program()
+        pool = []
+        # sub-expressions of the forms join the pool (every node kind, incl. MultiIndex)
+        for f, rank, mi in self.forms[:4]:
+            k = r.randint(4, 12)
+            tmp = self.new()
+            if not self.emit(["call", tmp, "sim.ops.subexprs", [self.ref(f), k, r.randint(0, 30)]]):
+                continue
+            outs = [self.new() for _ in range(k)]
+            self.emit(["unpack", None, self.ref(tmp), outs])
+            for o in outs:
+                if o in self.node.slots:
+                    self.info[o] = self.describe(self.node.slots[o])
+                    pool.append(o)
+        nd, pairs, lits = self.terminal_neardups()
+        prod = self.producers()
+        targets = [e for e in self.exprs if e in prod] + [f[0] for f in self.forms if f[0] in prod]
+        for _ in range(self.cfg.get("n_twins") or r.randint(3, 10)):
+            if not targets:
+                break
+            t = r.choice(targets)
+            tw, tag = self.twin(t, prod, nd, mutate=r.random() < 0.6)
+            if tw is not None and tw in self.node.slots:
+                pairs.append([t, tw, tag])
+                pool.append(tw)
+        for M in self.meshes:
+            pool += M["coefs"] + M["consts"] + M["geos"] + [x for x in (M.get("v"), M.get("u")) if x is not None]
+        pool += self.exprs + [f[0] for f in self.forms] + lits + [p[1] for p in pairs]
+        pool = [s_ for s_ in dict.fromkeys(pool) if s_ in self.node.slots and isinstance(self.obj(s_), (Expr, BaseForm))]
+        res = self.result()
+        res["pool"] = pool
+        res["pairs"] = [p for p in pairs if p[0] in self.node.slots and p[1] in self.node.slots]
+        res["kinds"] = {str(s_): ("form" if isinstance(self.obj(s_), BaseForm) else "expr") for s_ in pool}
+        res["mesh_ops"] = [i for i, op in enumerate(self.ops) if op[0] == "call" and op[2] == "ufl.Mesh" and len(op) == 4]
+        return res
+
     def flat_form(self, M):
         """A form whose integrand is (mostly) a flat commutative expression."""
         r = self.rng
@@ -1054,4 +1351,6 @@ def xop_plan(node, op):
         return p.program()
     if kind == "pool":
         return p.pool_program()
+    if kind == "c13":
+        return p.c13_program()
     raise simops.Skip("plan-kind")
